@@ -293,10 +293,33 @@ def slice_compose_shapes():
     return out
 
 
+def slice_window_shapes():
+    """every byte-aligned window (and a few unaligned ones) of every kind of operand a slice rule looks through: identifier,
+    constant, memory read, negation, sum, shift, conditional, slice - the rules that narrow or rebase a slice must get both
+    the offset and the width right, not only for the low / high halves"""
+    out = []
+    for n in (32, 64, 16):
+        a, b, k = ('id', 'a', n), ('id', 'b', n), ('int', 0, n)
+        p = ('id', 'p', 32)
+        ops = [a, k, ('mem', p, n), ('mem', ('op', '+', (p, ('int', 1, 32))), n), ('op', '-', (a,)), ('op', '+', (a, b)), ('op', '^', (a, k)),
+               ('op', '<<', (a, k)), ('op', '>>', (a, k)), ('cond', b, a, k)]
+        if n == 64:
+            ops = ops[:4]
+        if n == 32:
+            ops.append(('slice', ('id', 'z', 64), 16, 48))
+            ops.append(('slice', ('mem', p, 64), 8, 40))
+        wins = [(s0, s1) for s0 in range(0, n, 8) for s1 in range(s0 + 8, n + 1, 8)]
+        wins += [(4, 12), (1, 9), (7, n - 7), (0, 1), (n - 1, n)]
+        for x in ops:
+            for (s0, s1) in wins:
+                out.append(('slice', x, s0, s1))
+    return out
+
+
 def c05_shapes(tier, seed, widths=None):
     """list of (name, shape)"""
     rnd = random.Random(seed)
-    out = list(slice_compose_shapes()) if (widths is None or 32 in widths) else []
+    out = list(slice_compose_shapes()) + list(slice_window_shapes()) if (widths is None or 32 in widths) else []
     ws = widths or ([32, 8, 16, 64, 1])
     for n in ws:
         for s in rule_templates(n):
